@@ -75,8 +75,9 @@ func (c *cachedRoutes) Set(k string, v *Route) bool {
 
 // Get cached Route by key
 func (c *cachedRoutes) Get(k string) (*Route, bool) {
-	c.lock.RLock()
-	defer c.lock.RUnlock()
+	// Notice: Get moves the element to the front of the list, it needs the write lock.
+	c.lock.Lock()
+	defer c.lock.Unlock()
 
 	if element, ok := c.hashMap[k]; ok {
 		c.list.MoveToFront(element)
